@@ -16,5 +16,6 @@ func TestC18Params(t *testing.T) { RunProfileTest(t, ProfileC18Params) }
 func TestC04(t *testing.T)       { RunProfileTest(t, ProfileC04) }
 func TestC07Chain(t *testing.T)  { RunProfileTest(t, ProfileC07) }
 func TestC05Chain(t *testing.T)  { RunProfileTest(t, ProfileC05) }
+func TestC03Chain(t *testing.T)  { RunProfileTest(t, ProfileC03) }
 func TestC20(t *testing.T)       { RunProfileTest(t, ProfileC20) }
 func TestC10(t *testing.T)       { RunProfileTest(t, ProfileC10) }
